@@ -31,6 +31,9 @@ def run(tier, seed, update_lock=False):
         R.canary_check(u)
     mod = Sources().module(PYX)
     for fn in ('_euclidean', '_manhattan', '_hamming'):
+        if fn not in mod.funcs:       # renamed, or the module left the desugarer's subset: the locked race obligations are then reported as not generated
+            R.notes.append('race obligations of %s not generated: %s' % (fn, mod.parse_error or 'function not found'))
+            continue
         R.static_obligations('prange', [(fn + '/' + oid, ok, d) for oid, ok, d in race.check(mod.funcs[fn])])
     R.extra_cov['prange_loops_found'] = mod.prange_lines
     R.bounded('C13.py', 'run-time contracts on the kernels compiled from the current .pyx (ties the desugared text to the binary)',
